@@ -27,8 +27,11 @@ MODELLED = ["standard Engine.price single-process loop, MCPath.process/discount,
             "tools.mean/stddev/mc_stddev, ControlVariates.helper_compute_coefficients/compute_coefficients: hand model "
             "Model/McStats.v tied by vm_compute correspondence",
             "np.linalg.inv is modelled by its specification (returns the solution of the normal equations); the closed forms for one "
-            "and two controls are proved to satisfy it; conditioning of the numerical inverse is not covered (cases with "
-            "|det Sigma_X| < 1e-3 * prod diag are skipped and counted)",
+            "and two controls are proved to satisfy it; three or more controls have NO b* in the model (exact Fraction solve in the "
+            "oracle); conditioning of the numerical inverse is not covered (cases with |det Sigma_X| < 1e-3 * prod diag are skipped and counted)",
+            "the engine's statistics across pricings are state; np.empty is an oracle that may return the previous rows (the executable "
+            "model recycles them); n = 1: mc_stddev() is the single number 0.0 whatever d (modelled); n = 0: price() is 0 and "
+            "mc_stddev() raises AttributeError ('float' has no 'size') -- recorded in the evidence, not modelled",
             "np.cov(bias=True), np.std(ddof=1), np.mean: modelled as the textbook sums",
             "multiprocess path, spot statistics: not modelled"]
 ASSUMPTIONS = ["nb_of_processes = 1", "the error is compared squared (Q has no square root): mc_stddev()**2 = var_unbiased/n",
@@ -40,10 +43,13 @@ THEOREM_NOTES = {
     "C07_cv_bstar_solves_normal_equations": "closed-form b* for 1 and 2 controls only; 3+ controls are covered by the implementation oracle",
     "C07_repricing_uses_own_paths": "state machine over pricings on one engine: Engine.initialisation allocates a new MCStatistics per pricing, so the "
                                     "previous statistics never enter; tied by replaying pricing sequences (N then M<N, M>N, M=N) on one Engine instance",
-    "threshold": "min|Sigma_X| < 1e-12 -> b = 0 is modelled as written (Qabs of every entry, b_star in Model/McStats.v), so a changed guard breaks the "
-                 "vm_compute correspondence of the adjusted rows; the oracle separately flags 'b = 0 although Sigma_X is well conditioned'. The guard (also fires for two uncorrelated controls); then adj = Y (C07_cv_fallback_is_raw)",
+    "C07_cv_variance_with_code_b": "composition: the b the code computes for 1-2 controls (guard included) never increases the variance",
+    "threshold": "repaired guard (fix-mc3 aaa3e1f): a control is degenerate when variance <= 1e-24 * mean(x^2); modelled as written (degenerate in "
+                 "Model/McStats.v), so a changed guard breaks the vm_compute correspondence of the adjusted rows (cases are normalised by the "
+                 "power-of-two notionals, the implementation runs on notionals 2^-24 ... 2^20); the oracle separately flags 'b = 0 although no "
+                 "control is degenerate'. The old absolute guard min|Sigma_X| < 1e-12 also fired for tiny notionals and for two uncorrelated controls (F-C07-3, repaired)",
 }
-LEVEL_TEXT = ("Proof: 7 Coq theorems (closed under the global context): for every path function, payoff, df, notional, size and np.empty "
+LEVEL_TEXT = ("Proof: 8 Coq theorems (closed under the global context): for every path function, payoff, df, notional, size and np.empty "
               "content the engine loop stores df*notional*payoff(path_i) for each path exactly once and price() is df*notional*mean per "
               "component; every pricing of a sequence on one engine holds exactly its own paths; mc_stddev()^2 is the unbiased variance of each component divided by the number of paths; for every coefficient "
               "vector b the control-variate mean is mean Y - b.(mean X - price); for any number of controls, if b solves the normal "
@@ -58,7 +64,8 @@ HEADER = ("From Coq Require Import ZArith QArith List Bool.\nFrom RV Require Imp
           "Definition tol : Q := 1 # 1000000000.\nDefinition tol6 : Q := 1 # 1000000.\n")
 
 
-CTRL_NOTIONALS = [1.0, 2.0, 0.5, -1.0, -0.5, 1.0]
+CTRL_NOTIONALS = [1.0, 2.0, 0.5, -1.0, -0.5, 1.0, 2.0 ** -24, -(2.0 ** -24), 2.0 ** 20]
+PROD_NOTIONALS = [1.0, 2.0, 0.5, 8.0, 1.0, 2.0, 2.0 ** -24, 2.0 ** 20]
 
 
 def gen_controls(rng, ncv):
@@ -81,7 +88,7 @@ def gen_spec(rng, tier):
     return {"kind": "standard", "n": n, "d": d, "ncv": ncv, "vector_form": d > 1 or rng.random() < 0.3,
             "strikes": [rng.randrange(0, 40) / 8.0 for _ in range(d)],
             "paths": [rng.randrange(0, 65) / 8.0 for _ in range(n)],
-            "df": rng.choice([1.0, 0.5, 0.25, 0.75]), "notional": rng.choice([1.0, 2.0, 0.5, 8.0]),
+            "df": rng.choice([1.0, 0.5, 0.25, 0.75]), "notional": rng.choice(PROD_NOTIONALS),
             "controls": gen_controls(rng, ncv),
             "price_mode": rng.choice(["arbitrary", "arbitrary", "sample-mean"]),
             "scalar_prices": d == 1 and rng.random() < 0.6,
@@ -107,7 +114,7 @@ def gen_sequence(rng, tier):
                 s["d"] = rng.choice([1, 2, 3])
                 s["vector_form"] = s["d"] > 1 or rng.random() < 0.3
             s["strikes"] = [rng.randrange(0, 40) / 8.0 for _ in range(s["d"])]
-            s["notional"] = rng.choice([1.0, 2.0, 0.5, 8.0])
+            s["notional"] = rng.choice(PROD_NOTIONALS)
         s["seq_step"] = how
         seq.append(s)
     return seq
@@ -158,8 +165,8 @@ def run_sequence(specs):
         if first["price_mode"] == "sample-mean":
             xe = exact_controls(first)
             pr = [[float(sum(xe[j][i][k] for i in range(first["n"])) / first["n"]) for j in range(d0)] for k in range(ncv)]
-        else:
-            pr = first["prices_raw"]
+        else:   # given prices on the scale of each control (its notional)
+            pr = [[v * abs(c["notional"]) for v in row] for row, c in zip(first["prices_raw"], first["controls"])]
         prices = [p[0] for p in pr] if first["scalar_prices"] else [np.array(p) for p in pr]
         cv = make_control_variates([control_fun(c, d0) for c in first["controls"]], prices,
                                    notionals=[c["notional"] for c in first["controls"]])
@@ -230,11 +237,13 @@ def _det(S):
             + S[0][2] * (S[1][0] * S[2][1] - S[1][1] * S[2][0]))
 
 
-def _close(a, b, tol=TOL9):
+def _close(a, b, tol=TOL9, scale=1):
+    """|a - b| <= tol * max(scale, |b|); scale = natural size of the quantity (df * |notional|), so that the test is as
+    sharp for notional 2^-24 as for notional 1"""
     a = float(a)
     if math.isnan(a) or math.isinf(a):
         return False
-    return abs(Fraction(a) - b) <= tol * max(1, abs(b))
+    return abs(Fraction(a) - b) <= tol * max(scale, abs(b))
 
 
 def oracle(spec, obs):
@@ -242,6 +251,7 @@ def oracle(spec, obs):
     out = []
     n, d, ncv = spec["n"], spec["d"], spec["ncv"]
     df, no = Fraction(spec["df"]), Fraction(spec["notional"])
+    sc = abs(df * no)                      # natural size of a payoff row
     want = [[df * no * max(Fraction(x) - Fraction(K), Fraction(0)) for K in spec["strikes"]] for x in spec["paths"]]
     rows = obs["rows"]
     got = [[Fraction(float(v)) for v in r] for r in rows]
@@ -259,15 +269,15 @@ def oracle(spec, obs):
     cols = [[want[i][j] for i in range(n)] for j in range(d)]
     for j in range(d):
         m = _mean(cols[j])
-        if not _close(obs["price_raw"][j], m):
+        if not _close(obs["price_raw"][j], m, TOL9, sc):
             out.append(("price() is not df * notional * arithmetic mean of the payoff over the paths", {"component": j, "reported": float(obs["price_raw"][j]), "expected": float(m)}))
         if n >= 2:
             var = sum((x - m) ** 2 for x in cols[j]) / (n - 1)
             e2 = var / n
             rep = float(obs["err_raw"][j]) if len(obs["err_raw"]) == d else float("nan")
-            if not _close(rep * rep, e2):
+            if not _close(rep * rep, e2, TOL9, sc * sc):
                 det = {"component": j, "reported_error": rep, "textbook_error": math.sqrt(float(e2)), "n": n, "d": d}
-                if d >= 2 and _close(rep * rep * d, e2):
+                if d >= 2 and _close(rep * rep * d, e2, TOL9, sc * sc):
                     det["finding"] = "F-C07-1"
                 out.append(("mc_stddev() is not the unbiased sample standard deviation / sqrt(number of paths), per component", det))
     if ncv and len(got) == n:
@@ -284,8 +294,10 @@ def oracle(spec, obs):
             sxy = [_cov(xcols[a], cols[j]) for a in range(ncv)]
             spec.setdefault("_sigma_neg", 0)
             spec["_sigma_neg"] += any(v < 0 for r in S for v in r)
-            if min(abs(v) for r in S for v in r) < Fraction(1, 10 ** 12):
+            # the (repaired) guard: a control whose variance vanishes relative to its second moment -> b = 0
+            if any(S[a][a] <= Fraction(1, 10 ** 24) * _mean([x * x for x in xcols[a]]) for a in range(ncv)):
                 b = [Fraction(0)] * ncv
+                spec["_cv_guard"] = spec.get("_cv_guard", 0) + 1
             else:
                 diag = Fraction(1)
                 for a in range(ncv):
@@ -301,24 +313,24 @@ def oracle(spec, obs):
             tol6 = Fraction(1, 10 ** 6)
             moved = any(b[k] != 0 and xs[i][k] != p[k] for i in range(n) for k in range(ncv))
             if moved and any(v != 0 for v in b) and all(float(adj[i, j]) == float(rows[i, j]) for i in range(n)) \
-                    and any(not _close(adj[i, j], want_adj[i], tol6) for i in range(n)):
-                out.append(("control variates dropped (b* = 0, adjusted sample = raw sample) although min|Sigma_X| >= 1e-12 and Sigma_X is well conditioned",
+                    and any(not _close(adj[i, j], want_adj[i], tol6, sc) for i in range(n)):
+                out.append(("control variates dropped (b* = 0, adjusted sample = raw sample) although no control is degenerate and Sigma_X is well conditioned",
                             {"component": j, "Sigma_X": [[float(v) for v in r] for r in S], "b_star_expected": [float(v) for v in b],
                              "reported_price": float(obs["price"][j]), "expected_price": float(_mean(want_adj)), "raw_mean": float(_mean(cols[j]))}))
                 continue
-            if any(not _close(adj[i, j], want_adj[i], tol6) for i in range(n)):
+            if any(not _close(adj[i, j], want_adj[i], tol6, sc) for i in range(n)):
                 out.append(("control-variate adjusted sample is not Y - b*(X - price_X) with b* the sample regression coefficient",
                             {"component": j, "stored": [float(v) for v in adj[:, j]][:8], "expected": [float(v) for v in want_adj][:8],
                              "b_star": [float(v) for v in b], "prices": [float(v) for v in p]}))
                 continue
-            if not _close(obs["price"][j], _mean(want_adj), tol6):
+            if not _close(obs["price"][j], _mean(want_adj), tol6, sc):
                 out.append(("price() with control variates is not the mean of the adjusted sample", {"component": j}))
-            if spec["price_mode"] == "sample-mean" and not _close(obs["price"][j], _mean(cols[j]), tol6):
+            if spec["price_mode"] == "sample-mean" and not _close(obs["price"][j], _mean(cols[j]), tol6, sc):
                 out.append(("controls' sample mean equals their given price but the control-variate price differs from the raw mean",
                             {"component": j, "with_cv": float(obs["price"][j]), "raw": float(_mean(cols[j]))}))
             va = float(np.var(adj[:, j]))
             vy = float(np.var(rows[:, j]))
-            if va > vy * (1 + 1e-9) + 1e-12:
+            if va > vy * (1 + 1e-9) + 1e-12 * float(sc * sc):
                 out.append(("sample variance of the control-variate adjusted payoff exceeds the raw one", {"component": j, "var_adj": va, "var_raw": vy}))
     return out
 
@@ -339,13 +351,26 @@ def _seq_payload(specs, k, **det):
 def _coq_case(spec, obs):
     d = spec["d"]
     erows = lst([lst([qlit(v) for v in r]) for r in obs["rows"]])
-    err2 = [float(e) ** 2 for e in obs["err_raw"]] if len(obs["err_raw"]) == d else [0.0] * d
+    err2 = [float(e) ** 2 for e in obs["err_raw"]]            # n = 1: the code reports the single number 0.0 whatever d
     return (f"({lst([qlit(k) for k in spec['strikes']])}, {lst([qlit(x) for x in spec['paths']])}, {qlit(spec['df'])}, "
             f"{qlit(spec['notional'])}, {natlit(spec['n'])}, ({erows}, {lst([qlit(v) for v in obs['price_raw']])}, {lst([qlit(v) for v in err2])}))")
 
 
+def _zero_paths(res):
+    """mc_paths = 0: state what the code does (price() of nothing is 0; mc_stddev() cannot be evaluated)"""
+    spec = {"kind": "standard", "n": 0, "d": 1, "ncv": 0, "vector_form": False, "strikes": [1.0], "paths": [], "df": 1.0, "notional": 1.0,
+            "controls": [], "price_mode": "arbitrary", "scalar_prices": True, "prices_raw": []}
+    try:
+        obs = run(spec)
+        res.bump("n=0", f"price() {obs['price_raw'].tolist()}, mc_stddev() {obs['err_raw'].tolist()}")
+    except AttributeError as e:
+        res.bump("n=0", f"mc_stddev() raises AttributeError: {e}")
+    res.count(("n0",), nontrivial=False, kind="standard n=0")
+
+
 def correspond(res):
     rng = random.Random(res.seed)
+    _zero_paths(res)
     n_items = 420 if res.tier == "quick" else 5000
     eng_cases, cv_cases = [], []
     for i in range(n_items):
@@ -365,15 +390,24 @@ def correspond(res):
             for what, det in oracle(spec, obs):
                 res.violation(what, _seq_payload(specs[:k + 1], k, **det) if len(specs) > 1 else _payload(spec, **det))
             res.bump("cv_components_checked", spec.get("_cv_checked", 0))
+            if ncv:
+                res.bump("notional_scale", "tiny (2^-24)" if min([abs(spec["notional"])] + [abs(c["notional"]) for c in spec["controls"]]) < 1e-6
+                         else ("huge (2^20)" if max([abs(spec["notional"])] + [abs(c["notional"]) for c in spec["controls"]]) > 1e5 else "O(1)"))
+                if spec.get("_cv_guard"):
+                    res.bump("cv_components_with_a_degenerate_control (b = 0 by the guard)", spec["_cv_guard"])
             if ncv >= 2:
                 res.bump("Sigma_X_has_negative_entry", bool(spec.get("_sigma_neg")))
             if spec.get("_cv_skipped"):
                 res.bump("cv_components_skipped_ill_conditioned", spec["_cv_skipped"])
             if ncv in (1, 2) and spec.get("_cv_checked", 0) == d and n >= 2:
+                # powers of two: rows / |notional|, controls and prices / |control notional| (exact; the regression is equivariant,
+                # so the model sees O(1) numbers while the implementation ran on the tiny / huge ones)
+                ly = abs(spec["notional"])
+                lx = [abs(c["notional"]) for c in spec["controls"]]
                 for j in range(d):
-                    xs = lst([lst([qlit(obs["X"][i2, c, j]) for c in range(ncv)]) for i2 in range(n)])
-                    cv_cases.append(f"({natlit(ncv)}, {lst([qlit(spec['prices_used'][c][j]) for c in range(ncv)])}, {xs}, "
-                                    f"{lst([qlit(v) for v in obs['rows'][:, j]])}, {lst([qlit(v) for v in obs['adj'][:, j]])})")
+                    xs = lst([lst([qlit(obs["X"][i2, c, j] / lx[c]) for c in range(ncv)]) for i2 in range(n)])
+                    cv_cases.append(f"({natlit(ncv)}, {lst([qlit(spec['prices_used'][c][j] / lx[c]) for c in range(ncv)])}, {xs}, "
+                                    f"{lst([qlit(v / ly) for v in obs['rows'][:, j]])}, {lst([qlit(v / ly) for v in obs['adj'][:, j]])})")
         eng_cases.append(lst([_coq_case(sp, ob) for sp, ob in zip(specs, observations)]))
     bad, nsh = parallel_coq_bad(PROP, "engine", HEADER, "list seq_case", "corr_seq tol", eng_cases,
                                 shard=40 if res.tier == "quick" else 100, timeout=900, jobs=12)
@@ -383,7 +417,8 @@ def correspond(res):
     else:
         res.case_ok += nsh
     ty = "nat * list Q * list (list Q) * list Q * list Q"
-    chk = "fun c => match c with (nc, p, xs, y, adj) => Qclose_list tol6 (cv_adjust_tab nc p xs y) adj end"
+    chk = ("fun c => match c with (nc, p, xs, y, adj) => match cv_adjust_tab nc p xs y with Some l => Qclose_list tol6 l adj "
+           "| None => false end end")
     bad, nsh = parallel_coq_bad(PROP, "cv", HEADER, ty, chk, cv_cases, shard=40 if res.tier == "quick" else 100, timeout=900, jobs=12)
     res.case_lemmas += nsh
     res.bump("cv_coq_cases", len(cv_cases))
